@@ -240,7 +240,9 @@ class Consumer:
             off = part.low if self.conf.get("auto.offset.reset") in ("earliest", "smallest", "beginning") else part.high
         if off >= part.high:
             self.assigned[2] = off
+            self.broker.last_poll_none = True
             return None
+        self.broker.last_poll_none = False
         k, v = part.msgs[off - part.base]
         self.assigned[2] = off + 1
         self.broker.log.append(("deliver", p, off))
